@@ -2,9 +2,13 @@ package drv
 
 import (
 	"crypto/x509"
+	"errors"
 	"fmt"
+	"os"
+	"path/filepath"
 	"time"
 
+	ccpb "github.com/google/go-tdx-guest/proto/checkconfig"
 	testcases "github.com/google/go-tdx-guest/testing"
 	"github.com/google/go-tdx-guest/testing/testdata"
 
@@ -20,6 +24,15 @@ func VerifyOpts(c *gen.Concrete, o map[string]any) *verify.Options {
 		CheckRevocations: o["cr"] == true,
 		Getter:           c.Getter,
 		TrustedRoots:     c.Pool,
+	}
+	if via := c.W.Get("rotVia"); via != "pool" {
+		// the caller builds the pool from a RootOfTrust message; an unusable configuration leaves no options at all
+		ro, err := rootOfTrustOptions(c, via, o)
+		if err != nil {
+			return nil
+		}
+		ro.Getter = c.Getter
+		opts = ro
 	}
 	if o["now"] != "unset" {
 		opts.Now = &verify.TimeSet{
@@ -75,6 +88,13 @@ func RunVerifyOnce(c *gen.Concrete, id, sub int, o map[string]any, extra Event) 
 func RunVerifyWith(c *gen.Concrete, reuse *verify.Options, id, sub int, o map[string]any, extra Event) []Event {
 	c.Getter.Reset()
 	opts := VerifyOpts(c, o)
+	if opts == nil { // the root-of-trust configuration was refused: nothing can be verified under it
+		call := Event{"ev": "Call", "case": id, "sub": sub, "w": FullWorld(c.W), "o": o}
+		for k, v := range extra {
+			call[k] = v
+		}
+		return []Event{call, {"ev": "Return", "verdict": "reject", "err": "RootOfTrustToOptions refused the configuration"}}
+	}
 	if reuse != nil {
 		reuse.GetCollateral, reuse.CheckRevocations, reuse.Getter, reuse.TrustedRoots = opts.GetCollateral, opts.CheckRevocations, opts.Getter, opts.TrustedRoots
 		if o["now"] != "unset" {
@@ -222,6 +242,7 @@ func IntelConcrete(w gen.World) *gen.Concrete {
 	default: // any generated pool: an unrelated root with Intel's names
 		c.Pool = x509.NewCertPool()
 		c.Pool.AddCert(other.Root.Cert)
+		c.PoolDERs = [][]byte{other.Root.DER}
 	}
 	return c
 }
@@ -325,4 +346,63 @@ func runStaleClockCase(cs map[string]any, id int, seed int64) Result {
 	evs = RunVerifyWith(c, shared, id, 1, o, Event{"wid": "T-later", "shared": cs["shared"], "input": cs})
 	res.Events = append(res.Events, evs...)
 	return res
+}
+
+
+// rootOfTrustOptions builds the verification options the way a configuration-driven caller does: verify.RootOfTrustToOptions
+// over bundle files and / or inline PEM listing exactly the certificates of the world's pool.
+func rootOfTrustOptions(c *gen.Concrete, via string, o map[string]any) (*verify.Options, error) {
+	dir, err := os.MkdirTemp("", "verif-rot-")
+	if err != nil {
+		panic(err)
+	}
+	defer os.RemoveAll(dir)
+	rot := &ccpb.RootOfTrust{GetCollateral: o["gc"] == true, CheckCrl: o["cr"] == true}
+	file := func(i int, content []byte) string {
+		p := filepath.Join(dir, fmt.Sprintf("bundle%d.pem", i))
+		if err := os.WriteFile(p, content, 0o600); err != nil {
+			panic(err)
+		}
+		return p
+	}
+	switch via {
+	case "files":
+		for i, der := range c.PoolDERs {
+			rot.CabundlePaths = append(rot.CabundlePaths, file(i, gen.PEMCert(der)))
+		}
+	case "inline":
+		for _, der := range c.PoolDERs {
+			rot.Cabundles = append(rot.Cabundles, string(gen.PEMCert(der)))
+		}
+	case "mixed":
+		for i, der := range c.PoolDERs {
+			if i%2 == 0 {
+				rot.CabundlePaths = append(rot.CabundlePaths, file(i, gen.PEMCert(der)))
+			} else {
+				rot.Cabundles = append(rot.Cabundles, string(gen.PEMCert(der)))
+			}
+		}
+	case "fileEmpty":
+		rot.CabundlePaths = []string{file(0, []byte("\n"))}
+	case "inlineNonPem":
+		rot.Cabundles = []string{"this is not PEM"}
+	default:
+		panic("bad rotVia " + via)
+	}
+	var opts *verify.Options
+	out := Guard(10*time.Second, func() error {
+		var err error
+		opts, err = verify.RootOfTrustToOptions(rot)
+		return err
+	})
+	if out.Panic != "" || out.Timeout {
+		panic("RootOfTrustToOptions crashed: " + out.ErrText())
+	}
+	if out.Err != nil {
+		return nil, out.Err
+	}
+	if opts == nil {
+		return nil, errors.New("no options")
+	}
+	return opts, nil
 }
